@@ -351,9 +351,9 @@ class EvalFAtAllNodes(Contract):
         for m in range(1, M + 1):
             er = P.find_eval(L.f[m]) if hasattr(P, 'find_eval') else None
             if er is not None:
-                yield f'f{m}:rhs_of_node_value_at_node_time', bool(veq(er.u, st.us[m])) is True and bool(seq(er.t, L.time + L.dt * L.sweep.coll.nodes[m - 1])) is True
+                yield f'f{m}:rhs_of_node_value_at_node_time', bool(veq(er.u, st.us[m])) is True and bool(seq(er.t, L.status.time + L.params.dt * L.sweep.coll.nodes[m - 1])) is True
             else:
-                yield f'f{m}:rhs_of_node_value_at_node_time', veq(L.f[m], P.eval_f(st.us[m], L.time + L.dt * L.sweep.coll.nodes[m - 1]))
+                yield f'f{m}:rhs_of_node_value_at_node_time', veq(L.f[m], P.eval_f(st.us[m], L.status.time + L.params.dt * L.sweep.coll.nodes[m - 1]))
         yield 'node_values_and_f0_untouched', bool(veq(L.f[0], st.f0)) is True and all(bool(veq(L.u[m], st.us[m])) is True for m in range(M + 1))
 
     def canary(self, st, old, result, exc):
